@@ -15,6 +15,6 @@ for f in sorted(glob.glob(os.path.join(V, "evidence", "C*.json"))):
             new[rid] = {k: min(v, int(0.9 * (n if k == "quick" else v / 0.9))) for k, v in old[rid].items()}
             new[rid]["quick"] = min(old[rid].get("quick", n), int(0.9 * n))
         elif n > 0:
-            new[rid] = max(1, int(OVERRIDE.get(rid, 0.8) * n))
+            new[rid] = max(1, int(OVERRIDE.get(rid, 0.7) * n))
 json.dump(new, open(os.path.join(V, "floors.json"), "w"), indent=1)
 print(len(new), "floors")
